@@ -571,7 +571,8 @@ def impl(stream, line):
             if stream == "detectfull":
                 io.DEFAULT_BUFFER_SIZE = int(w[4])
             xf = XorEncodedFile.from_file(fh, maxrange=int(w[2]))
-            return f"ok {xf.nonce_offset} {fh.tell()} {xf.tell()}"
+            head = f"ok {xf.nonce_offset} {fh.tell()} {xf.tell()}"
+            return head + " " + C.hx(xf.read(12))
         finally:
             io.DEFAULT_BUFFER_SIZE = saved
             fh.close()
@@ -591,6 +592,7 @@ def impl(stream, line):
             try:
                 xf = XorEncodedFile.from_file(fh, maxrange=int(w[2]))
                 head = f"ok {xf.nonce_offset} {fh.tell()} {xf.tell()}"
+                head += " " + C.hx(xf.read(12))
             except ValueError as e:
                 head = "exc " + canon_exc(e)
             return f"{head} {C.ints(cap.eofs)} {C.ints(cap.nonces)} {C.ints(cap.tried)} {C.ints(cap.counts)}"
@@ -692,7 +694,14 @@ def oracle(stream, line, out):
             return None
         if exp == "ValueError":
             return out == "exc ValueError"
-        return out == f"ok {exp} {exp + 8} 0"
+        nonce, enc = raw[exp:exp + 4], raw[exp + 8:]
+        plain = bytearray()
+        prev = nonce
+        for i in range(0, min(len(enc), 12), 4):      # independent rolling-xor decode of the first 12 bytes
+            chunk = enc[i:i + 4]
+            plain += bytes(a ^ b for a, b in zip(chunk, prev))
+            prev = chunk
+        return out == f"ok {exp} {exp + 8} 0 {C.hx(bytes(plain[:12]))}"
     return None
 
 
@@ -705,7 +714,7 @@ def detectlog_verdict(line, out):
             return False
         res, lists = None, o[2:]
     else:
-        res, lists = int(o[1]), o[4:]
+        res, lists = int(o[1]), o[5:]
         if (int(o[2]), int(o[3])) != (res + 8, 0):
             return False
     eofs, nonces, tried, counts = (C.unints(t) for t in lists)
